@@ -24,8 +24,7 @@ class ValidateAdvance(_Validator):
                      and forall_int(0, jlen(request["blocks"]), lambda i: jtag(jitem(request["blocks"], i)) == T_STR))
         return (implies(not blocks_ok, result == -204)
                 and implies(blocks_ok, result == 0 or result == -205)
-                and implies(result == 0, jhas(request, "brothers") and jtag(request["brothers"]) == T_LIST
-                            and jlen(request["brothers"]) == jlen(request["blocks"])))
+                and implies(result == 0, brothers_ok(request)) and implies(blocks_ok and brothers_ok(request), result == 0))
     ensures = [verdict]
 
 
